@@ -318,23 +318,6 @@ def check_case(case, work):
     d2 = tempfile.mkdtemp(dir=work)
     rc, c_bytes, stderr = _cli_run(infile, os.path.join(d2, name), many, infmt, outfmt, allow, pre)
     prebytes = None if pre is None else pre.encode()
-    # third executor: the library function convert() in this process, on a copy of the input at a path (and with a
-    # modification time) that earlier cases of this thread have used with other content
-    import threading
-
-    fixed = os.path.join(work, f"fixed-{threading.get_ident()}")
-    os.makedirs(fixed, exist_ok=True)
-    suffix = os.path.splitext(infile)[1]
-    base = os.path.basename(infile)
-    by_prefix = base.upper().startswith(("FCIDUMP", "POSCAR", "CHGCAR", "AECCAR", "LOCPOT"))  # formats recognised by a name prefix
-    fin = os.path.join(fixed, ("input" + suffix) if (suffix and not by_prefix) else base)
-    shutil.copyfile(infile, fin)
-    os.utime(fin, (1_000_000_000, 1_000_000_000))
-    d3 = tempfile.mkdtemp(dir=work)
-    f_err, f_bytes = _convert_run(fin, os.path.join(d3, name), many, infmt, outfmt, allow, pre)
-    if (f_err, f_bytes) != (a_err, a_bytes):
-        return "bad", (f"convert() in-process: {f_err or 'returns'} with {'the same' if f_bytes == a_bytes else 'different'} "
-                       f"output bytes, the API calls: {a_err or 'return'}")
     if rc == 0:
         if a_err is not None:
             return "bad", f"CLI exit 0 but the API calls raise {a_err}"
@@ -353,6 +336,57 @@ def check_case(case, work):
     if a_err not in stderr:
         return "bad", f"CLI error message does not name the problem ({a_err}): {stderr.strip().splitlines()[-1][:200]}"
     return "ok-failure", None
+
+
+def _case_input(case, work):
+    """(input path, output base name, infmt, outfmt) of a case, as check_case derives them"""
+    fname, target, many, explicit, allow, pre = case[:6]
+    gd = tempfile.mkdtemp(dir=work)
+    if len(case) > 7 and case[7] and case[7][0] == "symlink-in":
+        real = os.path.join(gd, case[7][1])
+        shutil.copyfile(str(REPO / "iodata" / "test" / "data" / case[7][2]), real)
+        infile = os.path.join(gd, fname)
+        os.symlink(real, infile)
+    elif len(case) > 6:
+        infile = os.path.join(gd, fname)
+        with open(infile, "w") as fh:
+            fh.write(case[6])
+    else:
+        infile = str(REPO / "iodata" / "test" / "data" / fname)
+    ext = EXT.get(target, target)
+    name = "FCIDUMP.out" if target == "fcidump" else ("POSCAR.out" if target == "poscar" else f"out.{ext}")
+    if explicit:
+        name = "out.dat2"
+    infmt, outfmt = None, (target if explicit else None)
+    if target.startswith("in:"):
+        infmt, outfmt, name = target[3:], None, "out.xyz"
+    if target == "mkl":
+        outfmt = "molekel" if explicit else None
+    return infile, name, infmt, outfmt
+
+
+def check_convert_case(case, work):
+    """convert() called in this process — the function behind the CLI — against the API calls, on a copy of the input
+    at a path and with a modification time that earlier cases have used with other content: its outcome may depend
+    on the arguments and the file content only."""
+    fname, target, many, explicit, allow, pre = case[:6]
+    infile, name, infmt, outfmt = _case_input(case, work)
+    if not os.path.exists(infile):
+        return "skip", None
+    fixed = os.path.join(work, "fixed")
+    os.makedirs(fixed, exist_ok=True)
+    base = os.path.basename(infile)
+    suffix = os.path.splitext(infile)[1]
+    by_prefix = base.upper().startswith(("FCIDUMP", "POSCAR", "CHGCAR", "AECCAR", "LOCPOT"))  # recognised by a name prefix
+    fin = os.path.join(fixed, ("input" + suffix) if (suffix and not by_prefix) else base)
+    shutil.copyfile(infile, fin)
+    os.utime(fin, (1_000_000_000, 1_000_000_000))
+    a_err, a_bytes = _api_run(fin, os.path.join(tempfile.mkdtemp(dir=work), name), many, infmt, outfmt, allow, pre)
+    f_err, f_bytes = _convert_run(fin, os.path.join(tempfile.mkdtemp(dir=work), name), many, infmt, outfmt, allow, pre)
+    if (f_err, f_bytes) != (a_err, a_bytes):
+        return "bad", (f"convert() in-process: {f_err or 'returns'} with {'the same' if f_bytes == a_bytes else 'different'} "
+                       f"output bytes, the API calls: {a_err or 'return'}")
+    return "ok-" + ("success" if a_err is None else "failure"), None
 
 
 def _cases(ctx):
@@ -392,6 +426,19 @@ def search(ctx):
             ctx.count("search-cli", key, verdict, sample=key)
             if verdict == "bad":
                 ctx.fail(f"cli:{case[1]}:{what.split(':')[0][:60]}", f"{case}: {what}", key)
+        # one after the other, in this process, all on the same few paths
+        order = list(cases)
+        ctx.rng.shuffle(order)
+        for case in order:
+            verdict, what = check_convert_case(case, work)
+            if verdict == "skip":
+                continue
+            key = {"kind": "convert", "case": list(case)}
+            ctx.count("search-convert", key, verdict, sample={"kind": "convert", "case": list(case[:6])})
+            if verdict == "bad":
+                hist = [list(c) for c in order[: order.index(case)] if os.path.splitext(c[0])[1] == os.path.splitext(case[0])[1]][-6:]
+                ctx.fail(f"convert:{case[1]}:{what.split(':')[0][:60]}", f"{case[:6]}: {what}", dict(key, history=hist))
+                break
     finally:
         shutil.rmtree(work, ignore_errors=True)
 
@@ -399,6 +446,10 @@ def search(ctx):
 def replay(ctx, obj):
     work = tempfile.mkdtemp(prefix="vh-c18-")
     try:
+        if obj["input"].get("kind") == "convert":
+            for c in obj["input"].get("history", []):
+                check_convert_case(tuple(c), work)
+            return check_convert_case(tuple(obj["input"]["case"]), work)[0] == "bad"
         return check_case(tuple(obj["input"]["case"]), work)[0] == "bad"
     finally:
         shutil.rmtree(work, ignore_errors=True)
